@@ -118,7 +118,7 @@ func i64(v int64) *int64 { return &v }
 
 func runC08(c *Ctx) {
 	r := c.R
-	r.SetRule("every bad upload kind (wrong / malformed / wrong-length / empty Content-MD5, declared length longer than the body, body reader failing after k bytes for every k in 0..len and around 32 KiB buffer boundaries, key of 1024 vs 1025 bytes, metadata far above the limit, missing / negative / non-numeric Content-Length, aws-chunked with wrong decoded length or truncated stream, the same for UploadPart, Go PutObject with size != length) x prior state (key absent, key present) x backend (all seven configurations) x integrity on/off, each framed by snapshots of GET, HEAD, the key's listing entry, the bucket listing and ListParts; distinct = (backend, integrity, prior state, upload kind, failure point)")
+	r.SetRule("every bad upload kind (wrong / malformed / wrong-length / empty Content-MD5, declared length longer than the body, body reader failing after k bytes for every k in 0..len and around 32 KiB buffer boundaries, key of 1024 vs 1025 bytes, metadata far above the limit, missing / negative / non-numeric Content-Length, aws-chunked with wrong decoded length or truncated stream, the same (plain and aws-chunked) for UploadPart, Go PutObject with size != length) x prior state (key absent, key present) x backend (all seven configurations) x integrity on/off, each framed by snapshots of GET, HEAD, the key's listing entry, the bucket listing and ListParts; distinct = (backend, integrity, prior state, upload kind, failure point)")
 	r.Exhaustive(true)
 	r.Set("exhaustive_scope", "failure point k = every byte offset 0..len of a 96-byte (quick) / 1024-byte (thorough) body and 12 offsets around the 32 KiB and 64 KiB boundaries of a 70000-byte body, for every backend x integrity setting x prior state x {PUT, UploadPart, Go PutObject}")
 	smallLen := r.Pick(96, 1024)
@@ -436,9 +436,39 @@ func runC08(c *Ctx) {
 				{"part-reader-fails-mid", "reject", pq("2", nil, i64(int64(len(body))), &failingReader{data: body, k: 77}, false)},
 				{"part-md5-correct", "accept", pq("3", drv.H("Content-MD5", drv.MD5B64(body)), nil, nil, false)},
 			}
+			// aws-chunked part uploads: the framing is decoded exactly as for object uploads
+			pqc := func(n string, stream []byte, decoded int, md5 string) *drv.Req {
+				q := chunkedReq(bucket, mkey, stream, decoded)
+				q.Query = drv.Q("partNumber", n, "uploadId", id)
+				if md5 != "" {
+					q.Header.Set("Content-MD5", md5)
+				}
+				return q
+			}
+			cst := chunkedBody(body, 64)
+			partCases = append(partCases, []struct {
+				name, expect string
+				q            *drv.Req
+			}{
+				{"part-chunked-decoded-length-plus1", "reject", pqc("2", cst, len(body)+1, "")},
+				{"part-chunked-decoded-length-minus1", "reject", pqc("2", cst, len(body)-1, "")},
+				{"part-chunked-truncated-mid-chunk", "reject", pqc("2", cst[:len(cst)/2], len(body), "")},
+				{"part-chunked-truncated-before-final", "reject", pqc("2", cst[:len(cst)-90], len(body), "")},
+				{"part-chunked-md5-of-framing", "reject-if-integrity", pqc("2", cst, len(body), drv.MD5B64(cst))},
+				{"part-chunked-ok", "accept", pqc("4", cst, len(body), "")},
+				{"part-chunked-md5-of-payload", "accept", pqc("5", cst, len(body), drv.MD5B64(body))},
+			}...)
 			for _, pc := range partCases {
 				q := pc.q
 				runFramed(pc.name, pc.expect, prior, mkey, nil, func() *drv.Resp { return s.Do(q) }, pf, "-")
+			}
+			// the accepted aws-chunked parts hold the payload, not the framing
+			if pr, _ := mpListParts(s, bucket, mkey, id); pr != nil {
+				for _, p := range pr.Parts {
+					if (p.PartNumber == 4 || p.PartNumber == 5) && (p.ETag != drv.QuotedMD5(body) || int(p.Size) != len(body)) {
+						r.Violation(sig("C08", backendClass(j.kind), "chunked-part-stored-with-framing", prior), fmt.Sprintf("%s: part %d was uploaded aws-chunked with a %d-byte payload (md5 %s); ListParts shows size %d ETag %s", j.kind, p.PartNumber, len(body), drv.MD5Hex(body), p.Size, p.ETag), nil)
+					}
+				}
 			}
 			mpAbort(s, bucket, mkey, id)
 		}
